@@ -10,6 +10,8 @@ def spec(tier):
     obs += parts("W.worlds", F, "worlds", 16, T, path_timeout=250,
                  what="three-file worlds: accessibility of a (attribute / statement / default, 5 forms) x how m2 uses m1 (plain, ONLY, rename) x how main uses m1|m2 (6 forms) x default PRIVATE in m1/m2 x explicit re-export x local / host declarations (x second USE, accessibility of b and c in thorough); every use site of every standard-conforming world lands on the declaration line and column the reference resolver binds it to, or on nothing")
     obs += [XH("T.chains", F, "chains", 200 if q else 600, what="15 '%' chains x 3 statement forms: own, inherited (1 and 2 EXTENDS levels), nested-type, pointer-component and array-element components")]
+    obs += parts("X.inherit_orders", "C05_resolve.py", "inherit_orders", 8, 250 if tier == "quick" else 900,
+                 what="three-level EXTENDS chain (abstract base with a deferred binding, abstract intermediate, concrete leaf) in three files plus a user, indexed in all 24 file orders by the real workspace_init and by opening the files one by one: components / bindings of every level resolve through obj%, completion after obj% offers exactly all of them, the leaf's unimplemented deferred binding is reported")
     return dict(
         obligations=obs,
         functions=["find_in_scope", "get_use_tree", "climb_type_tree", "Variable.get_type_obj", "Type.resolve_inherit", "FortranAST.get_inner_scope",
